@@ -7,6 +7,7 @@ import (
 	"path/filepath"
 	"strings"
 	"sync/atomic"
+	"time"
 
 	"github.com/goreleaser/nfpm/v2"
 
@@ -89,6 +90,9 @@ func c15(run *ev.Run, tier string) {
 		if r.P(1, 6) {
 			s.Deb.Arch, s.RPM.Arch, s.APK.Arch, s.IPK.Arch, s.ArchL.Arch = "debarch", "rpmarch", "apkarch", "ipkarch", "archarch"
 		}
+		if r.P(1, 7) {
+			s.MTime = 0 // no package-wide mtime: files carry the on-disk time of their source
+		}
 		if r.P(1, 8) {
 			s.Platform = rng.Pick(r, []string{"darwin", "kfreebsd"}) // apk and archlinux refuse it: those builds are skipped
 		}
@@ -142,8 +146,18 @@ func c15(run *ev.Run, tier string) {
 				run.Violate("C15/"+f+"/build-error-after-name", map[string]any{"case": i, "error": fmt.Sprint(res.Err, ev.Short(res.Panic, 200))})
 				continue
 			}
+			if s.MTime == 0 {
+				// the clock enters the package: no byte comparison; asking for the name
+				// must still leave the payload file its on-disk time
+				if st, err := os.Stat(payload); err == nil {
+					pk0 := dec.Decode(f, res.Bytes, false)
+					if e := pk0.Find("/opt/n/p.txt"); e != nil && e.MTime != st.ModTime().Unix() && e.MTime != st.ModTime().Round(time.Second).Unix() {
+						run.Violate("C15/"+f+"/asking-for-the-name-alters-the-package/file-time", map[string]any{"case": i, "got": e.MTime, "on_disk": st.ModTime().Unix()})
+					}
+				}
+			}
 			fresh := buildYAML(y, f)
-			if fresh.Err == nil && !bytes.Equal(fresh.Bytes, res.Bytes) {
+			if s.MTime != 0 && fresh.Err == nil && !bytes.Equal(fresh.Bytes, res.Bytes) {
 				run.Violate("C15/"+f+"/asking-for-the-name-alters-the-package", map[string]any{"case": i, "name": name, "len": len(res.Bytes), "fresh_len": len(fresh.Bytes)})
 			}
 			pk := dec.Decode(f, res.Bytes, false)
@@ -295,6 +309,27 @@ func c15(run *ev.Run, tier string) {
 				run.Case(fmt.Sprintf("cli|no-infer|%s|%d", f, i), true)
 				if code != 0 || !isFormat(tgt2, other) {
 					run.Violate("C15/cli/"+f+"/extension-overrides-explicit-packager", map[string]any{"exit": code, "output": ev.Short(out, 300), "given_packager": other})
+				}
+			}
+		}
+	}
+	// (10) a packager that does not exist is an error, whatever the target's extension says
+	if bin := nfpmBin(run); bin != "" {
+		wd := filepath.Join(dir, "cli-unknown-packager")
+		_ = os.MkdirAll(wd, 0o755)
+		doc := "name: unknownp\narch: amd64\nversion: 1.0.0\nmaintainer: \"N <n@example.com>\"\ndescription: d\ncontents:\n  - src: " + payload + "\n    dst: /opt/n/a.txt\n"
+		cfgp := filepath.Join(wd, "conf.yaml")
+		_ = os.WriteFile(cfgp, []byte(doc), 0o644)
+		for _, pk := range []string{"debian", "rpmm", ".rpm", "tar", "DEB "} {
+			for _, ext := range []string{"deb", "rpm", "apk"} {
+				tgt := filepath.Join(wd, fmt.Sprintf("out-%d.%s", len(pk), ext))
+				_ = os.Remove(tgt)
+				_, _, code, err := runCmd(nil, wd, nil, bin, "package", "-f", cfgp, "-p", pk, "-t", tgt)
+				atomic.AddInt64(&cli, 1)
+				run.Case("cli|unknown-packager|"+pk+"|"+ext, true)
+				_, serr := os.Stat(tgt)
+				if err == nil && code == 0 && serr == nil {
+					run.Violate("C15/cli/unknown-packager-replaced-by-extension-guess", map[string]any{"packager": pk, "target_extension": ext})
 				}
 			}
 		}
